@@ -1,10 +1,260 @@
 /-
-  Drive/SchemaCode.lean — driver suite `schemacode` (stub; to be implemented).
+  Drive/SchemaCode.lean — driver suite `schemacode` (C09).
+
+  Wire form of a schema: the JSON schema itself, except that `properties` is an array of
+  `[name, schema]` pairs (document order), `enum` members and `default` are wire *values*
+  (Drive/Wire.lean) and `minimum`/`maximum` are exact rationals `[num, den]`.
+  Trusted glue: `Schema.ofJson` / `Schema.toJson` / `declToJson`.
 -/
 import TypedpyModel.Drive.Wire
+import TypedpyModel.Sem.SchemaToCode
 namespace Typedpy.Drive.SchemaCode
 open Lean (Json)
+open Typedpy Typedpy.Wire
 
-def run (_j : Json) : Except String Json := .error "suite schemacode not implemented"
+def hasKey (j : Json) (k : String) : Bool := (optField j k).isSome
+
+def sizeOfJson (j : Json) : Except String SizeOpts := do
+  pure { min := ← optNat j "minItems", max := ← optNat j "maxItems", uniq := ← optBool j "uniqueItems" false }
+
+partial def Schema.ofJson (j : Json) : Except String Schema := do
+  let subs (x : Json) : Except String (List Schema) := do (← x.getArr?).toList.mapM Schema.ofJson
+  if hasKey j "default" then throw "default outside a property"
+  if let some x := optField j "$ref" then
+    let s ← x.getStr?
+    return .ref ((s.drop "#/definitions/".length).toString)
+  -- precedence of `_convert_field_to_schema_code_internal`: multi-field keywords, enum, type
+  if let some x := optField j "allOf" then return .allOf (← subs x)
+  if let some x := optField j "anyOf" then return .anyOf (← subs x)
+  if let some x := optField j "oneOf" then return .oneOf (← subs x)
+  if let some x := optField j "not" then return .notS (← subs x)
+  if let some x := optField j "enum" then return .enum (← (← x.getArr?).toList.mapM valOfJson)
+  let ty ← match ← optStr j "type" with | some t => pure t | none => pure "object"
+  match ty with
+  | "integer" | "number" =>
+    pure (.num (ty == "integer") (← optInt j "multiplesOf") (← optQ j "minimum") (← optQ j "maximum")
+      (← optBool j "exclusiveMaximum" false))
+  | "string" => pure (.str (← optNat j "minLength") (← optNat j "maxLength") (← optStr j "pattern"))
+  | "boolean" => pure .bool
+  | "array" =>
+    let sz ← sizeOfJson j
+    match optField j "items" with
+    | none =>
+      if hasKey j "additionalItems" then throw "additionalItems without positional items"
+      pure (.arrAny sz)
+    | some (.arr xs) =>
+      pure (.arrPos (← xs.toList.mapM Schema.ofJson) (← optBool j "additionalItems" true) sz)
+    | some x =>
+      if hasKey j "additionalItems" then throw "additionalItems without positional items"
+      pure (.arrOf (← Schema.ofJson x) sz)
+  | "object" =>
+    match optField j "properties" with
+    | some ps =>
+      let pairs ← (← ps.getArr?).toList.mapM fun kv => do
+        let p ← kv.getArr?
+        let name ← p[0]!.getStr?
+        let sub := p[1]!
+        let dflt ← match optField sub "default" with
+          | none => pure none
+          | some d => do pure (some (← valOfJson d))
+        let sub' := sub.setObjVal! "default" .null
+        pure (name, ← Schema.ofJson sub', dflt)
+      let req ← match optField j "required" with
+        | none => pure none
+        | some _ => do pure (some (← strList j "required"))
+      pure (.obj (pairs.map fun (n, s, _) => (n, s))
+        (pairs.filterMap fun (n, _, d) => d.map fun v => (n, v)) req
+        (← optBool j "additionalProperties" true))
+    | none =>
+      match optField j "additionalProperties" with
+      | none => pure (.mapAny none (← optNat j "minItems") (← optNat j "maxItems"))
+      | some (.bool b) => pure (.mapAny (some b) (← optNat j "minItems") (← optNat j "maxItems"))
+      | some x => pure (.mapOf (← Schema.ofJson x) (← optNat j "minItems") (← optNat j "maxItems"))
+  | t => throw s!"schema type {t}"
+
+def optKV {α} (k : String) (f : α → Json) : Option α → List (String × Json)
+  | none => []
+  | some x => [(k, f x)]
+def natJ (n : Nat) : Json := Json.num (Lean.JsonNumber.fromNat n)
+def intJ (n : Int) : Json := Json.num (Lean.JsonNumber.fromInt n)
+def sizeKV (sz : SizeOpts) : List (String × Json) :=
+  optKV "minItems" natJ sz.min ++ optKV "maxItems" natJ sz.max
+    ++ (if sz.uniq then [("uniqueItems", Json.bool true)] else [])
+
+partial def Schema.toJson : Schema → Json
+  | .num i m mn mx ex => Json.mkObj ([("type", Json.str (if i then "integer" else "number"))]
+      ++ optKV "multiplesOf" intJ m ++ optKV "minimum" qToJson mn ++ optKV "maximum" qToJson mx
+      ++ (if ex then [("exclusiveMaximum", Json.bool true)] else []))
+  | .str lo hi p => Json.mkObj ([("type", Json.str "string")] ++ optKV "minLength" natJ lo
+      ++ optKV "maxLength" natJ hi ++ optKV "pattern" Json.str p)
+  | .bool => Json.mkObj [("type", "boolean")]
+  | .enum vs => Json.mkObj [("enum", Json.arr (vs.map valToJson).toArray)]
+  | .arrAny sz => Json.mkObj ([("type", Json.str "array")] ++ sizeKV sz)
+  | .arrOf s sz => Json.mkObj ([("type", Json.str "array"), ("items", Schema.toJson s)] ++ sizeKV sz)
+  | .arrPos ss addl sz => Json.mkObj ([("type", Json.str "array"),
+      ("items", Json.arr (ss.map Schema.toJson).toArray)]
+      ++ (if addl then [] else [("additionalItems", Json.bool false)]) ++ sizeKV sz)
+  | .mapAny a mn mx => Json.mkObj ([("type", Json.str "object")] ++ optKV "additionalProperties" Json.bool a
+      ++ optKV "minItems" natJ mn ++ optKV "maxItems" natJ mx)
+  | .mapOf v mn mx => Json.mkObj ([("type", Json.str "object"), ("additionalProperties", Schema.toJson v)]
+      ++ optKV "minItems" natJ mn ++ optKV "maxItems" natJ mx)
+  | .obj props defaults req addl =>
+    Json.mkObj ([("type", Json.str "object"),
+      ("properties", Json.arr (props.map fun (n, s) =>
+        let sj := Schema.toJson s
+        let sj := match lookup n defaults with
+          | some d => sj.setObjVal! "default" (valToJson d)
+          | none => sj
+        Json.arr #[Json.str n, sj]).toArray),
+      ("additionalProperties", Json.bool addl)]
+      ++ optKV "required" (fun (r : List String) => Json.arr (r.map Json.str).toArray) req)
+  | .ref n => Json.mkObj [("$ref", Json.str ("#/definitions/" ++ n))]
+  | .allOf ss => Json.mkObj [("allOf", Json.arr (ss.map Schema.toJson).toArray)]
+  | .anyOf ss => Json.mkObj [("anyOf", Json.arr (ss.map Schema.toJson).toArray)]
+  | .oneOf ss => Json.mkObj [("oneOf", Json.arr (ss.map Schema.toJson).toArray)]
+  | .notS ss => Json.mkObj [("not", Json.arr (ss.map Schema.toJson).toArray)]
+  | .retyped s => (Schema.toJson s).setObjVal! "type" (Json.str "object")
+  | .unsupported w => Json.mkObj [("unsupported", Json.str w)]
+
+/-! ### declarations on the wire (inverse of `Wire.declOfJson`, same keys as `harness/dump.py`) -/
+
+def numKV (o : NumOpts) : List (String × Json) :=
+  optKV "mult" intJ o.mult ++ optKV "min" qToJson o.min ++ optKV "max" qToJson o.max
+    ++ (if o.exclMax then [("excl", Json.bool true)] else [])
+def szKV (sz : SizeOpts) : List (String × Json) :=
+  optKV "minItems" natJ sz.min ++ optKV "maxItems" natJ sz.max
+    ++ (if sz.uniq then [("uniq", Json.bool true)] else [])
+
+partial def declToJson : FieldDecl → Json
+  | .number o => Json.mkObj ([("k", Json.str "number")] ++ numKV o)
+  | .integer o => Json.mkObj ([("k", Json.str "integer")] ++ numKV o)
+  | .float o => Json.mkObj ([("k", Json.str "float")] ++ numKV o)
+  | .string lo hi p => Json.mkObj ([("k", Json.str "string")] ++ optKV "minLength" natJ lo
+      ++ optKV "maxLength" natJ hi ++ optKV "pattern" Json.str p)
+  | .boolean => Json.mkObj [("k", "boolean")]
+  | .enumLit vs => Json.mkObj [("k", "enumLit"), ("values", Json.arr (vs.map valToJson).toArray)]
+  | .enumCls c ns => Json.mkObj [("k", "enumCls"), ("cls", Json.str c), ("names", Json.arr (ns.map Json.str).toArray)]
+  | .seqAny _ sz => Json.mkObj ([("k", Json.str "seqAny")] ++ szKV sz)
+  | .seqOf _ f sz => Json.mkObj ([("k", Json.str "seqOf"), ("item", declToJson f)] ++ szKV sz)
+  | .seqPos _ fs addl sz => Json.mkObj ([("k", Json.str "seqPos"),
+      ("items", Json.arr (fs.map declToJson).toArray)]
+      ++ (if addl then [] else [("addl", Json.bool false)]) ++ szKV sz)
+  | .setAny _ sz => Json.mkObj ([("k", Json.str "setAny")] ++ szKV sz)
+  | .setOf _ f sz => Json.mkObj ([("k", Json.str "setOf"), ("item", declToJson f)] ++ szKV sz)
+  | .tupleOf f u => Json.mkObj ([("k", Json.str "tupleOf"), ("item", declToJson f)]
+      ++ (if u then [("uniq", Json.bool true)] else []))
+  | .tuplePos fs u => Json.mkObj ([("k", Json.str "tuplePos"), ("items", Json.arr (fs.map declToJson).toArray)]
+      ++ (if u then [("uniq", Json.bool true)] else []))
+  | .mapAny sz => Json.mkObj ([("k", Json.str "mapAny")] ++ szKV sz)
+  | .mapOf k v sz => Json.mkObj ([("k", Json.str "mapOf"), ("key", declToJson k), ("val", declToJson v)] ++ szKV sz)
+  | .struct c fields defaults => Json.mkObj ([("k", Json.str "struct"), ("name", Json.str c.name),
+      ("required", Json.arr (c.required.map Json.str).toArray), ("addl", Json.bool c.addl),
+      ("fields", Json.arr (fields.map fun (n, f) => Json.arr #[Json.str n, declToJson f]).toArray)]
+      ++ (if c.inline then [("inline", Json.bool true)] else [])
+      ++ (if defaults.isEmpty then [] else
+          [("defaults", Json.arr (defaults.map fun (n, v) => Json.arr #[Json.str n, valToJson v]).toArray)]))
+  | .anyOf fs => Json.mkObj [("k", "anyOf"), ("fields", Json.arr (fs.map declToJson).toArray)]
+  | .oneOf fs => Json.mkObj [("k", "oneOf"), ("fields", Json.arr (fs.map declToJson).toArray)]
+  | .allOf fs => Json.mkObj [("k", "allOf"), ("fields", Json.arr (fs.map declToJson).toArray)]
+  | .notF fs => Json.mkObj [("k", "notF"), ("fields", Json.arr (fs.map declToJson).toArray)]
+  | .noneF => Json.mkObj [("k", "noneF")]
+  | .anything => Json.mkObj [("k", "anything")]
+
+/-- replace every `pattern` and every `str` default by the string its emitted literal denotes;
+    `none` when one of the literals is not a well-formed single literal (the module does not
+    compile, or means something else entirely) -/
+partial def effective (j : Json) : Option Json :=
+  match j with
+  | .arr xs => do
+    let ys ← xs.toList.mapM effective
+    pure (Json.arr ys.toArray)
+  | .obj kvs => do
+    let pairs ← kvs.toList.mapM fun (k, v) =>
+      if k == "pattern" || k == "default" then
+        match v with
+        | .str s => do
+          let t ← PyLex.pyLexStr (PyLex.wrapVal s)
+          pure (k, Json.str t)
+        | _ => pure (k, v)
+      else if k == "enum" then pure (k, v)
+      else do
+        let v' ← effective v
+        pure (k, v')
+    pure (Json.mkObj pairs)
+  | x => some x
+
+def siteJson (s : StringSite) : Json :=
+  Json.mkObj [("site", Json.str s.site), ("source", Json.str s.source),
+    ("lexed", match PyLex.pyLexStr s.source with | some v => Json.str v | none => Json.null),
+    ("faithful", Json.bool s.faithful)]
+
+def strs (xs : List String) : Json := Json.arr (xs.map Json.str).toArray
+
+def run (j : Json) : Except String Json := do
+  let name ← (← j.getObjVal? "name").getStr?
+  let sj ← j.getObjVal? "schema"
+  let defsJ ← match optField j "defs" with
+    | none => pure []
+    | some x => (← x.getArr?).toList.mapM fun kv => do
+      let p ← kv.getArr?
+      pure ((← p[0]!.getStr?), p[1]!)
+  let desc ← optStr j "desc"
+  let nonprint : List Nat ← match optField j "nonprint" with
+    | none => pure []
+    | some x => (← x.getArr?).toList.mapM (·.getNat?)
+  let pr : Char → Bool := fun c => !nonprint.contains c.toNat
+  let s ← Schema.ofJson sj
+  let defs ← defsJ.mapM fun (n, d) => do pure (n, ← Schema.ofJson d)
+  -- text
+  -- at top level the emitted `_required` is the list after the `remove`s
+  let emitted (x : Schema) : Schema := match x with
+    | .obj p d (some r) a => .obj p d (requiredAfter (.obj p d (some r) a)) a
+    | .mapOf _ _ _ => .mapAny none none none   -- top-level map: nothing is emitted for it
+    | y => y
+  let sites := (defs.map fun (_, d) => stringSites pr (emitted d)).flatten ++ stringSites pr (emitted s)
+    ++ (match desc with | some d => [descriptionSite d] | none => [])
+  let unfaithful := sites.filter (fun x => !x.faithful)
+  -- the class the emitted text evaluates to (literals as the lexer reads them)
+  let effMain := effective sj
+  let effDefs := defsJ.mapM fun (n, d) => (effective d).map fun e => (n, e)
+  let docLex := match desc with
+    | none => some none
+    | some d => (PyLex.pyLexStr (PyLex.docWrap d)).map some
+  let crash := (defs.map fun (_, d) => topCrashes d).flatten ++ topCrashes s
+  let empty := bodyEmpty desc.isSome s || defs.any (fun (_, d) => bodyEmpty false d)
+  let ordered := refsOrdered [] defs && (refsOf s).all (defs.map (·.1)).contains
+  let phase :=
+    if !crash.isEmpty then "gen"
+    else if effMain.isNone || effDefs.isNone || docLex.isNone || empty then "compile"
+    else if !ordered then "exec"
+    else "ok"
+  let classPart ← match effMain, effDefs, docLex with
+    | some em, some eds, some doc => do
+      let s' ← Schema.ofJson em
+      let defs' ← eds.mapM fun (n, d) => do pure (n, ← Schema.ofJson d)
+      let env := defsEnv [] defs'
+      let ρ := envResolver env
+      let cls := schemaToClass ρ name s'
+      pure [("decl", declToJson cls),
+            ("defDecls", Json.arr (env.map fun (n, d) => Json.arr #[Json.str n, declToJson d]).toArray),
+            ("back", Schema.toJson (toSchemaClass cls)),
+            ("defBacks", Json.arr (env.map fun (n, d) => Json.arr #[Json.str n, Schema.toJson (toSchemaClass d)]).toArray),
+            ("doc", match doc with | some d => Json.str d | none => Json.null)]
+    | _, _, _ => pure []
+  pure (Json.mkObj ([
+    ("phase", Json.str phase),
+    ("crashes", strs crash),
+    ("bodyEmpty", Json.bool empty),
+    ("refsOrdered", Json.bool ordered),
+    ("sites", Json.arr (sites.map siteJson).toArray),
+    ("unfaithful", strs (unfaithful.map (·.site))),
+    ("issues", strs (topIssues s)),
+    ("defIssues", Json.arr (defs.map fun (n, d) => Json.arr #[Json.str n, strs (topIssues d)]).toArray),
+    ("inFragment", Json.bool (inCodeFragment s && defs.all (fun (_, d) => inCodeFragment d))),
+    ("reqBefore", match requiredBefore s with | some r => strs r | none => Json.null),
+    ("reqAfter", match requiredAfter s with | some r => strs r | none => Json.null),
+    ("defReqAfter", Json.arr (defs.map fun (n, d) => Json.arr #[Json.str n,
+        match requiredAfter d with | some r => strs r | none => Json.null]).toArray)
+  ] ++ classPart))
 
 end Typedpy.Drive.SchemaCode
